@@ -23,6 +23,8 @@ type c05Lease struct {
 	token    string        // for token leases
 	isToken  bool
 	dead     bool
+	renewable bool
+	expired  bool // its expiry was moved into the past
 	lastTTL  time.Duration
 	expireAt time.Time // bound derived from the last response
 }
@@ -180,7 +182,7 @@ func TestVerif_C05_Leases(t *testing.T) {
 				if maxTTL > 0 && time.Duration(maxTTL)*time.Second < eff {
 					eff = time.Duration(maxTTL) * time.Second
 				}
-				l := &c05Lease{id: r.resp.Secret.LeaseID, issue: before, effMax: eff}
+				l := &c05Lease{id: r.resp.Secret.LeaseID, issue: before, effMax: eff, renewable: renewable}
 				w.leases = append(w.leases, l)
 				w.logf("secret ttl=%d max=%d renewable=%v -> ttl %v", ttl, maxTTL, renewable, r.resp.Secret.TTL)
 				checkBound(l, r.resp.Secret.TTL, "issue")
@@ -203,7 +205,7 @@ func TestVerif_C05_Leases(t *testing.T) {
 					w.logf("token %v -> %v", data, r)
 					return
 				}
-				l := &c05Lease{id: "token", isToken: true, token: r.resp.Auth.ClientToken, issue: before, effMax: eff}
+				l := &c05Lease{id: "token", isToken: true, token: r.resp.Auth.ClientToken, issue: before, effMax: eff, renewable: true}
 				w.leases = append(w.leases, l)
 				w.logf("token %v -> ttl %v", data, r.resp.Auth.TTL)
 				checkBound(l, r.resp.Auth.TTL, "issue")
@@ -230,6 +232,12 @@ func TestVerif_C05_Leases(t *testing.T) {
 				w.logf("renew %s +%ds dead=%v -> %v ttl %v", verifx.Trunc(l.id, 30), inc, l.dead, r, ttl)
 				if l.dead && r.ok() && ttl > 0 {
 					fail("revoked-lease-renewed", fmt.Sprintf("a revoked lease %s was renewed", verifx.Trunc(l.id, 40)))
+				}
+				if !l.dead && !l.renewable && r.ok() && ttl > 0 {
+					fail("non-renewable-lease-renewed", fmt.Sprintf("the non-renewable lease %s was renewed (ttl %v)", verifx.Trunc(l.id, 40), ttl))
+				}
+				if l.expired && r.ok() && ttl > 0 {
+					fail("expired-lease-renewed", fmt.Sprintf("the lease %s, whose expiry has passed, was renewed (ttl %v)", verifx.Trunc(l.id, 40), ttl))
 				}
 				if r.ok() && ttl > 0 {
 					checkBound(l, ttl, "renew")
@@ -267,6 +275,25 @@ func TestVerif_C05_Leases(t *testing.T) {
 				l.issue = l.issue.Add(-delta)
 				l.lastTTL -= delta
 				w.logf("age %s by %v", verifx.Trunc(l.id, 30), delta)
+			},
+			// the lease's expiry passes (moved into the past in storage; the timers are not told): it cannot be renewed
+			"expire": func(rt *rapid.T) {
+				l := pick(rt, func(l *c05Lease) bool { return !l.dead && !l.isToken && !l.expired })
+				if l == nil {
+					rt.Skip("no lease")
+				}
+				ctx := namespace.RootContext(context.Background())
+				m := w.tc.c.expiration
+				le, err := m.loadEntry(ctx, l.id)
+				if err != nil || le == nil {
+					rt.Skip("lease not loadable")
+				}
+				le.ExpireTime = time.Now().Add(-2 * time.Second)
+				if err := m.persistEntry(ctx, le); err != nil {
+					t.Fatalf("harness: persist expired lease: %v", err)
+				}
+				l.expired = true
+				w.logf("expire %s", verifx.Trunc(l.id, 30))
 			},
 			"revoke": func(rt *rapid.T) {
 				l := pick(rt, func(l *c05Lease) bool { return !l.dead })
